@@ -136,6 +136,21 @@ class Wif(Driver):
         calls += 1
         if not ok or k2 is None:
             return BAD("wif-roundtrip", "parse.wif(key.wif()) is a key", repr(k2), n=calls, clause="wif-roundtrip")
+        # history variant: one parseable_str instance first shown to two OTHER networks (one sharing the WIF version byte when
+        # there is one, one not), then to this one: the answer must be the same key
+        def shared_history():
+            ps = nw.parseable_str_type(w)
+            for oc in ("BTC", "BCH", "XTN", "LTC"):
+                if oc != case["network"]:
+                    quiet(net(oc).parse.wif, ps)
+            return quiet(nw.parse.wif, ps)
+        ok, k3 = _try(shared_history)
+        calls += 1
+        if not ok or k3 is None or _try(lambda: (k3.secret_exponent(), k3.is_compressed(), quiet(k3.address), quiet(k3.wif)))[1] != \
+                (e, comp, _try(quiet, k2.address)[1], w):
+            return BAD("wif-shared-str", "parse.wif on a parseable_str other networks have seen gives the same key as on a fresh str",
+                       repr(k3) if not ok or k3 is None else repr((k3.secret_exponent(), k3.is_compressed(), quiet(k3.address), quiet(k3.wif))),
+                       n=calls, clause="wif-shared-parseable-str")
         ok, f3 = _try(lambda: (k2.secret_exponent(), k2.is_compressed(), tuple(k2.public_pair()), k2.hash160(), quiet(k2.address), quiet(key.address), quiet(pk.address),
                                quiet(key.wif, not comp)))
         if not ok:
